@@ -187,7 +187,7 @@ def exec_case(case, built=None):
     for i in range(T):
         if np.any(np.isneginf(np.asarray(st_.get_history("logl", index=i), dtype=float))):
             raise Violation(f"history batch {i} contains log-likelihood -inf", sig={"kind": "neginf-stored"})
-        if case["mode"] in ("blobs2", "blobs_auto", "blobs_str", "blobs_rec", "blobs_arr"):
+        if case["mode"] in ("blobs2", "blobs_auto", "blobs_str", "blobs_rec", "blobs_arr", "blobs_f4", "blobs_int"):
             xb, bb = np.asarray(st_.get_history("x", index=i)), st_.get_history("blobs", index=i)
             for k in range(len(xb)):
                 if not t.blob_match(xb[k], bb[k]):
